@@ -67,6 +67,12 @@ type Channel struct {
 	packageCh chan Package
 
 	errCh chan error
+
+	// closing is closed by Close before it acquires the write lock. It
+	// releases the goroutines that hold the read lock while they block
+	// on packageCh or errCh.
+	closing     chan struct{}
+	closingOnce sync.Once
 }
 
 // NewChannel communicates the creation of a new channel with the
@@ -90,6 +96,7 @@ func (tds *Conn) NewChannel() (*Channel, error) {
 		queueTx:            NewPacketQueue(tds.PacketSize),
 		packageCh:          make(chan Package, tds.info.ChannelPackageQueueSize),
 		errCh:              make(chan error, 10),
+		closing:            make(chan struct{}),
 	}
 
 	tds.tdsChannelsLock.Lock()
@@ -184,6 +191,10 @@ func (tdsChan *Channel) Close() error {
 
 		// TODO process ack packet
 	}
+
+	// Release readers and writers of the package and error queues - they
+	// hold the read lock while blocking on the queues.
+	tdsChan.closingOnce.Do(func() { close(tdsChan.closing) })
 
 	// Lock the channel and store the closed indicator.
 	tdsChan.Lock()
@@ -354,8 +365,30 @@ func (tdsChan *Channel) NextPackage(ctx context.Context, wait bool) (Package, er
 			tdsChan.channelId, err)
 	case pkg := <-tdsChan.packageCh:
 		return pkg, nil
+	case <-tdsChan.closing:
+		return nil, ErrChannelClosed
 	case err := <-ch:
 		return nil, err
+	}
+}
+
+// deliverPackage passes a package to the consumer of the channel. It
+// blocks while the package queue is full, but not longer than until the
+// channel is being closed - the package is dropped then.
+func (tdsChan *Channel) deliverPackage(pkg Package) {
+	select {
+	case tdsChan.packageCh <- pkg:
+	case <-tdsChan.closing:
+	}
+}
+
+// deliverError passes an error to the consumer of the channel. It
+// blocks while the error queue is full, but not longer than until the
+// channel is being closed - the error is dropped then.
+func (tdsChan *Channel) deliverError(err error) {
+	select {
+	case tdsChan.errCh <- err:
+	case <-tdsChan.closing:
 	}
 }
 
@@ -622,7 +655,7 @@ func (tdsChan *Channel) WritePacket(packet *Packet) {
 	// The packet is header-only - pass it directly into the package
 	// channel.
 	if packet.Header.Length == PacketHeaderSize {
-		tdsChan.packageCh <- &HeaderOnlyPackage{Header: packet.Header}
+		tdsChan.deliverPackage(&HeaderOnlyPackage{Header: packet.Header})
 		return
 	}
 
@@ -665,7 +698,7 @@ func (tdsChan *Channel) tryParsePackage() bool {
 			// - usually only when a procedure with multiple commands is
 			// being executed.
 			if lastPkg, ok := tdsChan.lastPkgRx.(*DonePackage); !ok || lastPkg.Status != TDS_DONE_FINAL {
-				tdsChan.packageCh <- &DonePackage{Status: TDS_DONE_FINAL}
+				tdsChan.deliverPackage(&DonePackage{Status: TDS_DONE_FINAL})
 			}
 		}
 		return false
@@ -674,7 +707,7 @@ func (tdsChan *Channel) tryParsePackage() bool {
 	// Create Package.
 	pkg, err := LookupPackage(Token(tokenByte))
 	if err != nil {
-		tdsChan.errCh <- err
+		tdsChan.deliverError(err)
 		return false
 	}
 
@@ -685,7 +718,7 @@ func (tdsChan *Channel) tryParsePackage() bool {
 
 	if acceptor, ok := pkg.(LastPkgAcceptor); ok {
 		if err := acceptor.LastPkg(tdsChan.lastRefPkgRx); err != nil {
-			tdsChan.errCh <- fmt.Errorf("error in LastPkg: %w", err)
+			tdsChan.deliverError(fmt.Errorf("error in LastPkg: %w", err))
 			return false
 		}
 	}
@@ -698,7 +731,7 @@ func (tdsChan *Channel) tryParsePackage() bool {
 		}
 
 		// Parsing went wrong, record as error
-		tdsChan.errCh <- fmt.Errorf("error parsing package %T: %w", pkg, err)
+		tdsChan.deliverError(fmt.Errorf("error parsing package %T: %w", pkg, err))
 		return false
 	}
 
@@ -708,7 +741,7 @@ func (tdsChan *Channel) tryParsePackage() bool {
 
 	pass, err := tdsChan.handleSpecialPackage(pkg)
 	if err != nil {
-		tdsChan.errCh <- fmt.Errorf("error while handling special package: %w", err)
+		tdsChan.deliverError(fmt.Errorf("error while handling special package: %w", err))
 		// Package handling errored, but the package could be parsed.
 		// Continue.
 		return true
@@ -719,7 +752,7 @@ func (tdsChan *Channel) tryParsePackage() bool {
 		return true
 	}
 
-	tdsChan.packageCh <- pkg
+	tdsChan.deliverPackage(pkg)
 	tdsChan.lastPkgRx = pkg
 	// Server messages can arrive anywhere in a response, also between
 	// a format package and its data packages - they must not replace the
